@@ -38,7 +38,6 @@ struct Side<KB: KeyBundle> {
 }
 
 struct Sent {
-    from: usize,
     wire: TwoPartyMessage,
     plaintext: Vec<u8>,
     kind: &'static str,
@@ -69,9 +68,24 @@ struct World<KB: KeyBundle + Clone> {
     queue: [VecDeque<usize>; 2],
     /// Processed per receiver, in processing order.
     processed: [Vec<usize>; 2],
+    replay_x3dh: bool,
 }
 
 impl<KB: KeyBundle + Clone> World<KB> {
+    /// A replay was accepted earlier in this run and one side carried on with the rolled-back
+    /// state it got back.
+    fn poisoned(&self) -> bool {
+        self.sides[0].poisoned || self.sides[1].poisoned
+    }
+
+    /// Everything that goes wrong after an accepted replay has that replay as its root cause and
+    /// is already covered by its signature; it is shown in the trace and counted as a probe (the
+    /// second half of the clause: an already processed message must "not corrupt later decryption").
+    fn consequence(&self, detail: String) {
+        ctx::probe("session_corrupted_after_accepted_replay");
+        ev!("CONSEQUENCE of the accepted replay: {detail}");
+    }
+
     fn send(&mut self, from: usize) {
         let idx = self.msgs.len();
         let plaintext = format!("#{idx} {}->{}", NAMES[from], NAMES[1 - from]).into_bytes();
@@ -86,16 +100,20 @@ impl<KB: KeyBundle + Clone> World<KB> {
                 if side.sends_since_receive == 3 {
                     ctx::probe("burst_without_reply");
                 }
-                self.msgs.push(Sent { from, wire, plaintext, kind, processed: false });
+                self.msgs.push(Sent { wire, plaintext, kind, processed: false });
                 self.queue[from].push_back(idx);
                 if kind == "x3dh-prekey" && self.queue[1 - from].front().map(|i| self.msgs[*i].kind == "x3dh-prekey").unwrap_or(false) {
                     ctx::probe("concurrent_first_messages");
                 }
             }
             Err(e) => {
-                let poisoned = self.sides[from].poisoned;
                 ev!("{} send FAILED: {e}", NAMES[from]);
-                violation("send-failed", &format!("{}{}", err_site(&format!("{e:?}")), if poisoned { "/after-accepted-replay" } else { "" }), format!("{} could not encrypt message #{idx}: {e}", NAMES[from]));
+                let detail = format!("{} could not encrypt message #{idx}: {e}", NAMES[from]);
+                if self.poisoned() {
+                    self.consequence(detail);
+                } else {
+                    violation("send-failed", &err_site(&format!("{e:?}")), detail);
+                }
             }
         }
     }
@@ -126,12 +144,12 @@ impl<KB: KeyBundle + Clone> World<KB> {
             }
             Err(e) => {
                 ev!("{} receives #{idx} ({}): REJECTED {e}", NAMES[to], m.kind);
-                let after = if self.sides[to].poisoned || self.sides[from].poisoned { "/after-accepted-replay" } else { "" };
-                violation(
-                    "first-delivery-rejected",
-                    &format!("{}/{}{after}", m.kind, err_site(&format!("{e:?}"))),
-                    format!("message #{idx} ({}, {} bundle) delivered in send order for its direction was rejected: {e}", m.kind, self.bundle_kind),
-                );
+                let detail = format!("message #{idx} ({}, {} bundle) delivered in send order for its direction was rejected: {e}", m.kind, self.bundle_kind);
+                if self.poisoned() {
+                    self.consequence(detail);
+                } else {
+                    violation("first-delivery-rejected", &format!("{}/{}", m.kind, err_site(&format!("{e:?}"))), detail);
+                }
             }
         }
         self.msgs[idx].processed = true;
@@ -143,6 +161,9 @@ impl<KB: KeyBundle + Clone> World<KB> {
         let idx = self.processed[to][pick];
         let later = self.processed[to].len() - 1 - pick;
         let m = &self.msgs[idx];
+        if m.kind == "x3dh-prekey" && !self.replay_x3dh {
+            return;
+        }
         ctx::fault("duplicate");
         if later > 0 {
             ctx::probe("replay_after_later_messages");
@@ -158,11 +179,14 @@ impl<KB: KeyBundle + Clone> World<KB> {
             }
             Ok((st, keys, plaintext)) => {
                 ev!("REPLAY #{idx} ({}) to {} after {later} later message(s): ACCEPTED, plaintext {:?}", m.kind, NAMES[to], String::from_utf8_lossy(&plaintext));
-                violation(
-                    "replay-accepted",
-                    &format!("{}/{}-bundle", m.kind, self.bundle_kind),
-                    format!("message #{idx} ({}) was processed a second time by {} and returned {:?} again", m.kind, NAMES[to], String::from_utf8_lossy(&plaintext)),
-                );
+                let detail = format!("message #{idx} ({}) was processed a second time by {} and returned {:?} again", m.kind, NAMES[to], String::from_utf8_lossy(&plaintext));
+                // Decrypting an X3DH message does not depend on the session state, so its
+                // acceptance is never a consequence of an earlier one.
+                if self.poisoned() && m.kind != "x3dh-prekey" {
+                    self.consequence(detail);
+                } else {
+                    violation("replay-accepted", &format!("{}/{}-bundle", m.kind, self.bundle_kind), detail);
+                }
                 // An application would now carry on with the state it got back.
                 let side = &mut self.sides[to];
                 side.st = st;
@@ -184,6 +208,9 @@ fn session<KB: KeyBundle + Clone>(bundle_kind: &'static str, replay: bool, make_
     let bob_keys = identity(&rng);
     let both_initiate = ctx::chance("both_initiate", 1, 3);
     let total = ctx::range("messages", 2, 14);
+    // Long-term bundles: in half of the replay runs the X3DH messages are left alone, so that the
+    // replay handling of the HPKE rounds is also exercised on sessions no X3DH replay has touched.
+    let replay_x3dh = !replay || bundle_kind == "onetime" || ctx::chance("replay_x3dh_messages", 1, 2);
 
     let (bob_keys, bob_bundle) = make_bundle(bob_keys, &rng);
     let alice_st = TwoParty::<KeyManager, KB>::init_to_send(bob_bundle);
@@ -196,7 +223,7 @@ fn session<KB: KeyBundle + Clone>(bundle_kind: &'static str, replay: bool, make_
     ev!(
         "{bundle_kind} pre-key bundles; alice initiates{}; {total} messages; replays {}",
         if both_initiate { ", bob initiates concurrently with alice's bundle" } else { ", bob waits for her first message" },
-        if replay { "on" } else { "off" }
+        if !replay { "off" } else if replay_x3dh { "on" } else { "on (HPKE rounds only)" }
     );
 
     let mut w = World {
@@ -209,6 +236,7 @@ fn session<KB: KeyBundle + Clone>(bundle_kind: &'static str, replay: bool, make_
         msgs: Vec::new(),
         queue: [VecDeque::new(), VecDeque::new()],
         processed: [Vec::new(), Vec::new()],
+        replay_x3dh,
     };
 
     #[derive(Clone, Copy)]
@@ -297,8 +325,14 @@ impl Property for C37Prop {
     }
     fn budget(&self, tier: Tier) -> Budget {
         match tier {
-            Tier::Quick => Budget { runs: 24_000, wall_cap_s: 40 },
-            Tier::Thorough => Budget { runs: 400_000, wall_cap_s: 400 },
+            Tier::Quick => Budget { runs: 40_000, wall_cap_s: 30 },
+            Tier::Thorough => Budget { runs: 500_000, wall_cap_s: 330 },
+        }
+    }
+    fn shrink_budget_s(&self, tier: Tier) -> u64 {
+        match tier {
+            Tier::Quick => 5,
+            Tier::Thorough => 20,
         }
     }
     fn modes(&self) -> u32 {
